@@ -84,7 +84,8 @@ def compare_impl_spec(code, impl_lines, spec_lines):
         return diffs
     # spec completed
     if ri.startswith("r err"):
-        diffs.append(("fault-mismatch", "spec ok, impl %s" % ri))
+        # the instruction completes on a CPU but the step fails: no result at all (C01) and a spurious fault (C06)
+        diffs.append(("spurious-error", "spec ok, impl %s" % ri))
         return diffs
     if ri.startswith("r panic") or ri.startswith("r harness-panic"):
         return diffs
